@@ -15,8 +15,56 @@ class C29(SchedProp):
     id = 'C29'
     props_modules = ['CylcModel.Props.C29']
     theorems = [
+        'CylcModel.C29.set_prereqs_keeps_atoms',
+        'CylcModel.C29.set_prereqs_only_requested',
+        'CylcModel.C29.set_pre_pooled',
+        'CylcModel.C29.valid_prereqs_are_own',
+        'CylcModel.C29.set_no_valid_prereq_noop',
+        'CylcModel.C29.all_prereqs_set_satisfied',
+        'CylcModel.C29.ready_is_queued',
+        'CylcModel.C29.ready_task_is_launched',
+        'CylcModel.C29.child_prereq_satisfied',
+        'CylcModel.C29.pooled_child_prereq_satisfied',
+        'CylcModel.C29.set_launches_nothing',
+        'CylcModel.C29.set_frame',
+        'CylcModel.C29.set_creates_no_active_status',
+        'CylcModel.C29.set_never_makes_active',
+        'CylcModel.C29.set_active_cover',
+        'CylcModel.C29.forced_started_keeps_status',
+        'CylcModel.C29.forced_submitted_keeps_status',
+        'CylcModel.C29.forced_succeeded_status',
+        'CylcModel.C29.forced_expired_status',
+        'CylcModel.C29.reset_status',
+        'CylcModel.C29.set_submit_failed',
     ]
-    statement_note = 'TODO'
+    statement_note = (
+        'partial: proofs over the Sched3Set model (scheduler core + flows + `cylc set`, a line-by-line port) for all instance '
+        'graphs and all states. PROVED - prerequisites: force_satisfy keeps every prerequisite\'s atoms and expression and '
+        'satisfies exactly the requested atoms (all with --pre=all), nothing else (set_prereqs_keeps_atoms, '
+        'set_prereqs_only_requested); the requested atoms that count are those among the instance\'s graph prerequisites '
+        '(valid_prereqs_are_own); `cylc set --pre` on a pooled task leaves it pooled with exactly these prerequisites changed, '
+        'through the flow merge (set_pre_pooled); a command naming no prerequisite of the task changes neither pool, transient '
+        'objects, database rows / queue nor hold record (set_no_valid_prereq_noop); with --pre=all every well-formed '
+        'prerequisite is satisfied; a waiting, released, unheld proxy with satisfied prerequisites is queued by the '
+        'queue-if-ready sweep and launched under its next submit number by the release/submit step '
+        '(all_prereqs_set_satisfied, ready_is_queued, ready_task_is_launched). PROVED - children: when spawn_on_output (natural or forced, pooled or transient parent) has the child of an output in hand (found in the pool or spawned) the child is pooled afterwards only with every occurrence of that prerequisite atom satisfied (child_prereq_satisfied, pooled_child_prereq_satisfied; that it carries the parent\'s flows is C08S). PROVED - never submitted/running: `cylc set` (any options, any state) '
+        'launches no job, requests no poll and leaves the message queue, stop / pause / stall state, runahead limit, hold '
+        'point, stop point and stop task alone (set_launches_nothing, set_frame: frame lemma through every primitive incl. '
+        'process_message(forced), spawn_on_output, merge_flows, spawn_task, remove); and it creates NO submitted / running '
+        'status: a proxy that is submitted or running in the pool after the command was so before, as the proxy / transient '
+        'object of that instance or in a committed or queued row of its database history, from which spawn_task re-creates '
+        'proxies with the recorded status (set_creates_no_active_status, set_never_makes_active, set_active_cover: an '
+        'invariant proved primitive by primitive over pool, transient objects, rows and the DB queue); the forced branches '
+        'of process_message store the proxy with its status unchanged (started, submitted) or reset to exactly succeeded / '
+        'expired (forced_*_status, reset_status). FINDING set-submit-failed-ignored as a theorem per value of the probed flag '
+        '(set_submit_failed: on the unrepaired code `cylc set --out=submit-failed` changes nothing; repaired: output complete, '
+        'child spawned). NOT PROVED (checked by the judge on every real trace, and tied by the correspondence): that the '
+        'requested outputs and their implied outputs are complete on the proxy / in the DB after the command, that exactly '
+        'the children of the newly completed outputs are spawned with those prerequisite atoms satisfied (the flow half - '
+        'children carry the parent\'s flows - is proved in C08S), the default output set, and the steps of _main_loop around '
+        'sweep + submit (ready_task_is_launched proves that the queue-if-ready sweep followed by the release/submit step '
+        'launches a ready task under its next submit number; that the runahead / shutdown prelude of the same loop keeps '
+        'the task ready is not proved).')
     technique = ('line-by-line Lean port of `cylc set` + flows into the scheduler model (Sched3Set), trace correspondence with '
                  'the real Scheduler (pool, flows, flow-wait, committed task_states/task_outputs rows after every operation), '
                  'a monitor judge on the observed traces, lemmas per primitive')
@@ -43,7 +91,7 @@ class C29(SchedProp):
             'flow, transient parents, joins); non-trivial = distinct class (kind, ending, which set variants occurred on '
             'pooled / inactive targets, merges, flow-wait, restart with several flows) per distinct case')
     kinds = ('set', 'setany')
-    n_quick = 64
+    n_quick = 48
     n_thorough = 720
 
     def translate(self):
@@ -53,7 +101,14 @@ class C29(SchedProp):
         return _s3set.corpus_cases()
 
     def impl_batch(self, inputs):
-        return _s3set.retry_flakes(sprop.run_workers, inputs, sprop.run_workers(inputs, self.workers))
+        return _s3set.retry_flakes(sprop.run_workers, inputs, _s3set.run_robust(sprop.run_workers, inputs, self.workers))
+
+    def equal(self, model_out, obs):
+        # a run in which the real scheduler raised the exception of a recorded finding (datastore-graph-depth) has no
+        # model counterpart: it is judged (KNOWN-FINDING), not compared; any other exception is a disagreement
+        if isinstance(obs, dict) and 'crash' in obs:
+            return 'graph_depth' in obs['crash']
+        return super().equal(model_out, obs)
 
     def classify(self, inp, obs):
         if isinstance(obs, dict):
